@@ -39,7 +39,7 @@ type ParseTdxCcelOpts struct {
 
 func getRtmrsFromTdQuoteV4(quote *tdxpb.QuoteV4) (*register.RTMRBank, error) {
 	bank := register.RTMRBank{}
-	rtmrs := quote.TdQuoteBody.Rtmrs
+	rtmrs := quote.GetTdQuoteBody().GetRtmrs()
 	for index, rtmr := range rtmrs {
 		bank.RTMRs = append(bank.RTMRs, register.RTMR{
 			Index:  int(index),
